@@ -11,9 +11,9 @@ use vcore::md5::dist_digest;
 use vcore::proto::{HsMsg, deframe, frame, hs_ack, hs_challenge, hs_status, read_hs_from_initiator};
 use vcore::report::Report;
 
-const STATUS: [&str; 11] = ["ok", "ok_simultaneous", "nok", "not_allowed", "alive", "garbage", "empty_frame", "wrong_tag", "short_frame_then_silence", "close", "silence"];
-const CHALLENGE: [&str; 10] = ["valid", "valid_other_flags", "truncated_10", "truncated_18", "wrong_tag", "name_len_beyond_body", "long_prefix_then_silence", "close", "silence", "ack_instead"];
-const ACK: [&str; 10] = ["valid", "wrong_digest", "reflected_digest", "truncated", "oversized", "wrong_tag", "close", "silence", "challenge_again", "empty_frame"];
+const STATUS: [&str; 13] = ["ok", "ok_simultaneous", "nok", "not_allowed", "alive", "garbage", "empty_frame", "wrong_tag", "short_frame_then_silence", "close", "silence", "ok_after_empty_frame", "ok_after_junk_frame"];
+const CHALLENGE: [&str; 12] = ["valid", "valid_other_flags", "truncated_10", "truncated_18", "wrong_tag", "name_len_beyond_body", "long_prefix_then_silence", "close", "silence", "ack_instead", "valid_after_empty_frame", "valid_after_status_again"];
+const ACK: [&str; 12] = ["valid", "wrong_digest", "reflected_digest", "truncated", "oversized", "wrong_tag", "close", "silence", "challenge_again", "empty_frame", "valid_after_empty_frame", "valid_after_wrong_digest"];
 const TIMEOUT: Duration = Duration::from_secs(3);
 const PEER_FLAGS_A: u64 = 0xffff_ffff_ffff_ffff;
 const PEER_FLAGS_B: u64 = 0x0000_000d_07df_7fbd;
@@ -44,6 +44,8 @@ fn execute(case: &(usize, usize, usize), ctx: &WorkerCtx) -> ExecResult {
         let detail = |what: String| json!({"peer_script": [names.0, names.1, names.2], "what": what});
         let mut peer = match w.accept_peer().await { Some(p) => p, None => { res.violations.push(("library never connected to the peer".into(), detail("accept".into()))); return res; } };
         let mut conforming = true;
+        // an extra frame the protocol has no place for, after which the peer carries on as if nothing had happened
+        let mut deviated = false;
         let mut silent = false;
         let mut layout_problem: Option<String> = None;
         // --- name
@@ -60,6 +62,8 @@ fn execute(case: &(usize, usize, usize), ctx: &WorkerCtx) -> ExecResult {
             // --- status
             match STATUS[si] {
                 "ok" | "ok_simultaneous" | "nok" | "not_allowed" | "alive" => { peer.send(&frame(&hs_status(STATUS[si]), 2)); if !STATUS[si].starts_with("ok") { conforming = false; } }
+                "ok_after_empty_frame" => { peer.send(&[0, 0]); peer.send(&frame(&hs_status("ok"), 2)); deviated = true; }
+                "ok_after_junk_frame" => { peer.send(&frame(b"?", 2)); peer.send(&frame(&hs_status("ok"), 2)); deviated = true; }
                 "garbage" => { peer.send(&frame(&hs_status("okay"), 2)); conforming = false; }
                 "empty_frame" => { peer.send(&[0, 0]); conforming = false; }
                 "wrong_tag" => { peer.send(&frame(b"xok", 2)); conforming = false; }
@@ -74,6 +78,8 @@ fn execute(case: &(usize, usize, usize), ctx: &WorkerCtx) -> ExecResult {
             match CHALLENGE[ci] {
                 "valid" => { peer.send(&frame(&good(PEER_FLAGS_A), 2)); }
                 "valid_other_flags" => { peer_flags = PEER_FLAGS_B; peer.send(&frame(&good(PEER_FLAGS_B), 2)); }
+                "valid_after_empty_frame" => { peer.send(&[0, 0]); peer.send(&frame(&good(PEER_FLAGS_A), 2)); deviated = true; }
+                "valid_after_status_again" => { peer.send(&frame(&hs_status("ok"), 2)); peer.send(&frame(&good(PEER_FLAGS_A), 2)); deviated = true; }
                 "truncated_10" => { peer.send(&frame(&good(PEER_FLAGS_A)[..10], 2)); conforming = false; }
                 "truncated_18" => { peer.send(&frame(&good(PEER_FLAGS_A)[..18], 2)); conforming = false; }
                 "wrong_tag" => { let mut g = good(PEER_FLAGS_A); g[0] = b'n'; peer.send(&frame(&g, 2)); conforming = false; }
@@ -85,7 +91,7 @@ fn execute(case: &(usize, usize, usize), ctx: &WorkerCtx) -> ExecResult {
             }
             if !conforming { break 'script; }
             // --- complement + reply from the library
-            let Some(fr) = wait_frames(&w, &mut peer, consumed, 2).await else { layout_problem = Some("complement/reply not received".into()); break 'script; };
+            let Some(fr) = wait_frames(&w, &mut peer, consumed, 2).await else { if !deviated { layout_problem = Some("complement/reply not received".into()); } break 'script; };
             let mut their: Option<u32> = None;
             match read_hs_from_initiator(&fr[0]) {
                 Ok(HsMsg::Complement { flags_hi, creation }) => { if flags_hi != (our_flags >> 32) as u32 || creation != 42 || flags_lo != our_flags as u32 { layout_problem = Some("name/complement do not carry this side's flags and creation".into()); } }
@@ -99,6 +105,8 @@ fn execute(case: &(usize, usize, usize), ctx: &WorkerCtx) -> ExecResult {
             // --- ack
             match ACK[ai] {
                 "valid" => { peer.send(&frame(&hs_ack(&dist_digest(COOKIE, their)), 2)); }
+                "valid_after_empty_frame" => { peer.send(&[0, 0]); peer.send(&frame(&hs_ack(&dist_digest(COOKIE, their)), 2)); deviated = true; }
+                "valid_after_wrong_digest" => { peer.send(&frame(&hs_ack(&dist_digest("other", their)), 2)); peer.send(&frame(&hs_ack(&dist_digest(COOKIE, their)), 2)); deviated = true; }
                 "wrong_digest" => { peer.send(&frame(&hs_ack(&dist_digest("other", their)), 2)); conforming = false; }
                 "reflected_digest" => { peer.send(&frame(&hs_ack(&dist_digest(COOKIE, challenge)), 2)); conforming = false; }
                 "truncated" => { peer.send(&frame(&hs_ack(&dist_digest(COOKIE, their))[..9], 2)); conforming = false; }
@@ -128,6 +136,7 @@ fn execute(case: &(usize, usize, usize), ctx: &WorkerCtx) -> ExecResult {
         let _ = silent;
         if let Some(p) = &layout_problem { res.violations.push(("handshake message emitted by this side does not have the prescribed layout".into(), detail(p.clone()))); }
         let connected = conn.state() == ConnectionState::Connected && conn.is_connected();
+        if deviated { conforming = false; }
         if conforming {
             if r.is_err() || !connected { res.violations.push(("handshake with a conforming peer failed".into(), detail(format!("{:?} state={}", r.as_ref().err().map(|e| e.to_string()), conn.state())))); }
             else if conn.negotiated_flags().map(|f| f.as_u64()) != Some(our_flags & peer_flags) { res.violations.push(("negotiated flags are not the intersection of both sides' flags".into(), detail(format!("{:?}", conn.negotiated_flags())))); }
@@ -158,6 +167,10 @@ pub fn run(rep: &Report) -> Value {
         // after a deviation the script stops; keep one representative of the unreachable tail
         if !STATUS[s].starts_with("ok") && (c != 0 || a != 0) { continue; }
         if !CHALLENGE[c].starts_with("valid") && a != 0 { continue; }
+        // "carries on after an extra frame" scripts: one per position, otherwise conforming
+        if STATUS[s].contains("_after_") && (c != 0 || a != 0) { continue; }
+        if CHALLENGE[c].contains("_after_") && (s != 0 || a != 0) { continue; }
+        if ACK[a].contains("_after_") && (s != 0 || c != 0) { continue; }
         cases.push((s, c, a));
     } } }
     let st: Stats = for_all(rep, "peer deviations", &cases, |c, ctx| execute(c, ctx));
@@ -170,6 +183,6 @@ pub fn run(rep: &Report) -> Value {
         "distinct_outcomes": st.distinct_outcomes,
         "outcomes": st.outcomes,
         "unstable_failures_not_reported": st.unstable,
-        "rule": "the real Connection::connect (fake EPMD, loopback socket, paused clock advanced only by the controller) against a scripted peer: 11 status behaviours x 10 challenge behaviours x 10 acknowledgement behaviours (refusals, garbage, wrong tags, truncations, oversize, reflection, out-of-order, over-long prefix, close, silence) pruned after the first deviation; layout of the three emitted messages checked by an independent parser; connection reused after close()",
+        "rule": "the real Connection::connect (fake EPMD, loopback socket, paused clock advanced only by the controller) against a scripted peer: 13 status behaviours x 12 challenge behaviours x 12 acknowledgement behaviours (incl. six scripts in which the peer inserts an empty, junk or repeated frame and then carries on correctly) (refusals, garbage, wrong tags, truncations, oversize, reflection, out-of-order, over-long prefix, close, silence) pruned after the first deviation; layout of the three emitted messages checked by an independent parser; connection reused after close()",
     })
 }
